@@ -21,6 +21,7 @@ def plan(tier, seed):
     for p in range(parts):
         specs.append(dict(name="grid-%d" % p, mode="interp", what="grid", part=p, parts=parts, fills=fills, seed=[seed, 10, p]))
         specs.append(dict(name="multi-%d" % p, mode="interp", what="multi", n=tuples // parts, seed=[seed, 110, p]))
+    specs.append(dict(name="frontend", mode="interp", what="frontend", n=3 if tier == "quick" else 12, seed=[seed, 1010, 0]))
     return specs
 
 
@@ -52,6 +53,24 @@ def fill(rng, T, N, kind):
     return x
 
 
+HELD = []   # results handed out earlier (object, bit snapshot): later calls must not change them
+
+
+def verify_held(res, case):
+    for arr, bits0, desc in HELD:
+        if arr.shape != bits0.shape or not np.array_equal(st.bits(np.asarray(arr, dtype=np.float64)), bits0):
+            res.violation("a stacked array returned by an earlier call (%s) changed when a later call was made" % (desc,), case)
+            del HELD[:]
+            return
+    res.count("earlier_results_rechecked", len(HELD))
+
+
+def hold(arr, desc):
+    if isinstance(arr, np.ndarray):
+        HELD.append((arr, st.bits(np.asarray(arr, dtype=np.float64)).copy(), desc))
+        del HELD[:-5]
+
+
 def check_single(res, dp, x, W, case):
     T, N = x.shape
     before = np.array(x, copy=True)
@@ -77,6 +96,8 @@ def check_single(res, dp, x, W, case):
             i, c, i + (c // N if N else 0), T, N, W, len(bad)), case)
     if not np.array_equal(st.bits(np.asarray(before, dtype=np.float64)), st.bits(np.asarray(x, dtype=np.float64))):
         res.violation("stack_training_data modified its input", case)
+    verify_held(res, case)
+    hold(out, "T=%d N=%d W=%d" % (T, N, W))
     return out
 
 
@@ -116,7 +137,16 @@ def check_multi(res, dp, case):
     res.evaluations += 1
     ref = np.vstack([st.stack_ref(s, W) for s in series])
     if out.shape != ref.shape or not np.array_equal(st.bits(np.asarray(out, dtype=np.float64)), st.bits(ref)):
-        res.violation("multi-series stacking is not the concatenation of the individual stackings (Ts=%s W=%d N=%d)" % (case["Ts"], W, N), case)
+        res.violation("multi-series stacking is not the concatenation of the individual stackings (Ts=%s W=%d N=%d, dtypes %s)" % (
+            case["Ts"], W, N, [str(s.dtype) for s in series]), case)
+    # the individual stackings, held side by side, must also still be themselves after the joint call
+    singles = [dp.stack_training_data(s, W) for s in series]
+    for s_, single in zip(series, singles):
+        if not np.array_equal(st.bits(np.asarray(single, dtype=np.float64)), st.bits(st.stack_ref(s_, W))):
+            res.violation("individual stackings held side by side alias each other (Ts=%s W=%d)" % (case["Ts"], W), case)
+            break
+    verify_held(res, case)
+    hold(out, "multi Ts=%s W=%d" % (case["Ts"], W))
     lens = [s.shape[0] - W + 1 for s in series]
     K = 4
     per = [[int(v) for v in rng.integers(0, K, size=L)] for L in lens]
@@ -155,13 +185,37 @@ def run_multi(spec, res):
             Ts = [Ts[0]] * ns                 # all series of identical shape (a tempting "fast path")
             res.count("equal_shape_tuples")
         fills = [FILLS[int(rng.integers(0, 5))] for _ in range(ns)]
+        if rng.random() < 0.3:
+            fills[0] = ["float32", "int"][int(rng.integers(0, 2))]     # a narrower first series must not narrow the later ones
+            res.count("tuples_with_mixed_dtypes")
         case = dict(what="multi", W=W, N=N, Ts=Ts, fills=fills, rng=[int(v) for v in spec["seed"]] + [i])
         check_multi(res, dp, case)
         if i == 0:
             res.sample(case)
 
 
+def run_frontend(spec, res):
+    """The array the front end actually hands to the main loop, for one buffer viewed under several shapes in one process."""
+    from ticcmon import e2e, e2e_check
+    rng = np.random.default_rng(spec["seed"])
+    cases = []
+    for i in range(spec["n"]):
+        total = int(rng.choice([72, 96, 120]))
+        seed = int(rng.integers(0, 2 ** 31))
+        shapes = [(total // n_, n_) for n_ in (2, 3, 4, 6, 1)]
+        rng.shuffle(shapes)
+        for (T, N) in shapes[:4]:
+            cases.append(dict(front="single", data=dict(gen="reshape", seed=seed, total=total, T=T, N=N), W=2, K=2,
+                              beta=dict(form="float", value=1.0), lam=dict(form="float", value=0.5), m=2, limit=1, biased=True, eps=0.0,
+                              nproc=1, mp=False, rng_seed=1, init=dict(kind="alternating")))
+    e2e_check.run_cases(res, cases, ("C10",), lambda run, I: "f", coverage_props=())
+    res.count("frontend_reshape_runs", len(cases))
+
+
 def run_shard(spec, res):
+    if spec["what"] == "frontend":
+        run_frontend(spec, res)
+        return
     if spec["what"] == "grid":
         run_grid(spec, res)
     else:
@@ -169,6 +223,10 @@ def run_shard(spec, res):
 
 
 def replay(case, res):
+    if case.get("front"):
+        from ticcmon import e2e_check
+        e2e_check.replay_case(res, case, ("C10",))
+        return
     from fast_ticc import data_preparation as dp
     if case["what"] == "grid":
         x = fill(np.random.default_rng(case["rng"]), case["T"], case["N"], case["fill"])
@@ -184,4 +242,7 @@ def finalize(merged, tier):
     out["shape_grid_complete"] = shapes == 2952
     if shapes != 2952:
         out["inconclusive"].append("shape grid incomplete: %d of 2952" % shapes)
+    for key, least in (("frontend_reshape_runs", 12), ("tuples_with_mixed_dtypes", 50), ("earlier_results_rechecked", 5000)):
+        if merged["counters"].get(key, 0) < least:
+            out["inconclusive"].append("monitor counter %s=%d below %d" % (key, merged["counters"].get(key, 0), least))
     return out
